@@ -102,7 +102,7 @@ impl Prop for C11 {
             drain_sz(),
         )
             .prop_map(|(spec, gens, in_pages, out_pages, schedule, drain_feed, drain_free)| {
-                C11Case::Block(DripCase { spec, gens, tag_every: 0, in_pages, out_pages, schedule, drain_feed, drain_free, close_early: false })
+                C11Case::Block(DripCase { spec, gens, tag_every: 0, in_pages, out_pages, schedule, drain_feed, drain_free, close_early: false, lopsided: false })
             });
         let kernel = (tapspec_strategy(200), finite_gen(2000), 1u8..9).prop_map(|(taps, input, deci)| C11Case::Kernel { taps, input, deci });
         let iir = (
